@@ -6,7 +6,7 @@ import shutil
 import subprocess
 import tempfile
 
-from .facts import (Facts, AnalysisBroken, VERIF, walk_expr, walk_all_exprs, walk_stmts, show, strip_casts, strip_copies,
+from .facts import (Facts, AnalysisBroken, VERIF, expr_children, walk_expr, walk_all_exprs, walk_stmts, show, strip_casts, strip_copies,
                     strip_conv, member_path)
 from .genrules import is_call, field_chain, guard_implies, guarded
 from .props_c02 import Multi
@@ -360,6 +360,16 @@ def c14(rep, tier):
                  '%d action(s) build the text from the NUL-terminated yytext alone: a matched NUL byte yields an empty text instead of a '
                  'one-character token' % len(no_len), 'Compiler/src/lexer.l:3', witness={'input': 'a file containing a NUL byte', 'cases': no_len[:5]} if no_len else None)
     L7 = rep.rule('C14.L7', 'the committed scanner is the one generated from the specification (both build configurations behave identically)', floor=1)
+    # the match is what the automaton found: yytext / yyleng are set by the generated skeleton only (no YY_USER_ACTION or rule action changes the length of a lexeme)
+    leng_sets = [e for e in walk_all_exprs(yl['body']) if e.get('k') == 'assign' and 'yyleng' in show(e['l'])]
+    extra_len = [e for e in leng_sets if not ('yy_cp' in show(e['r']) and 'yy_bp' in show(e['r']))]
+    if not leng_sets:
+        L7.unknown('yylex: length of a lexeme', 'no assignment to yyleng found in yylex()')
+    else:
+        L7.check(not extra_len, 'yylex: length of a lexeme', 'yyleng = yy_cp - yy_bp, set by the skeleton only (%d place(s))' % len(leng_sets),
+                 'yylex() changes the length of the matched text (%s): a hook in a header (YY_USER_ACTION) or a rule action cuts lexemes - the text of a long identifier, number or file name '
+                 'is not the text in the file' % (show(extra_len[0])[:60] if extra_len else ''), 'Compiler/src/lex.yy.c:%d' % (extra_len[0]['loc'][0] if extra_len else yl['loc'][1]),
+                 witness={'input': 'an identifier of 300 characters'} if extra_len else None)
     tabs = lexspec.parse_tables(cpath)
     ok, wit, pairs = lexspec.equivalent(dfa, tabs)
     rep.extra['table_product_pairs'] = pairs
@@ -561,6 +571,18 @@ def scan_rules(rep, sfacts):
                  'a scanner is created with the content of one file and the name of another: %s' % (show(bad_call)[:80] if bad_call else ''), 'Compiler/src/scan.cpp:%d' % scan['loc'][1])
     S4 = rep.rule('C14.S4', 'the scan buffer covers the whole content (length-based entry point), not a NUL-terminated prefix', floor=1)
     content = cs['params'][0]
+    # ... also at the call sites: the content of a file is not moved out of the file table (std::move(files[name]) leaves an empty file behind)
+    for f_ in sfacts.functions:
+        if f_.get('body') is None or f_['tmpl'] == 'pattern':
+            continue
+        for e_ in walk_all_exprs(f_['body']):
+            if e_.get('k') == 'call' and e_.get('callee') == cs['q'] and e_.get('args'):
+                for x_ in walk_expr(e_['args'][0]):
+                    if x_.get('k') == 'call' and (x_.get('callee') or '') in ('std::move', 'std::exchange') and x_.get('args') and \
+                            any(y_.get('k') == 'ref' and y_.get('dk') == 'param' and 'map<' in (y_.get('cty') or '') for y_ in walk_expr(x_['args'][0])):
+                        S4.violation('%s: create_scanner(std::move(..))' % f_['q'].split('::')[-1], 'the content of a file is moved out of the file table into the scanner (%s): the entry stays '
+                                     'in the table but is empty afterwards - a later include of the same file scans nothing and reports nothing' % show(x_)[:50],
+                                     'Compiler/src/scan.cpp:%d' % e_['loc'][0], witness={'input': 'main: include "a" x1 := 1 ; include "a"   a: x0 := x0 + 1 ;'})
     # ... and the content stays what it is: the same file may be included again
     for e in walk_all_exprs(cs['body']):
         tgt = None
@@ -611,6 +633,119 @@ def scan_rules(rep, sfacts):
         else:
             S4.violation('create_scanner: %s' % b['callee'], 'the buffer is created from a NUL-terminated string: everything after the first NUL byte of a file is silently dropped',
                          'Compiler/src/scan.cpp:%d' % b['loc'][0], witness={'input': 'x := 1;\\0 y := 2', 'effect': 'tokens after the NUL vanish'})
+    carrier_records_rule(rep, sfacts)
+
+
+def carrier_records_rule(rep, sfacts):
+    """Token, ScannerInfo and the syntax-tree nodes carry text, file and line from the scanner to the tables: their constructors (and AST::mk) store the
+    arguments they are given - no argument is changed, shortened, normalised or computed with on the way into a field.  Kinds are distinct numbers."""
+    S9 = rep.rule('C14.S9', 'the records that carry token text, file and line store what they are given: constructors of Token / ScannerInfo / Node and AST::mk pass their '
+                            'arguments through unchanged; the enumerators of the kind and error enums are pairwise distinct', floor=2)
+    afacts = Facts(['Compiler/src/ast.cpp'])
+    rep.note_facts(afacts)
+    targets = []
+    for fx in (sfacts, afacts):
+        for f in fx.functions:
+            if f.get('body') is None or f['tmpl'] == 'pattern' or not f.get('params'):
+                continue
+            owner = f['q'].rsplit('::', 1)[0].split('::')[-1]
+            if (f['kind'] == 'ctor' and owner in ('Token', 'ScannerInfo', 'Node', 'SyntaxError', 'ParseError')) or f['q'] in ('Theo::AST::mk', 'Theo::Node::mk'):
+                if not any(f['sig'] == t['sig'] for t in targets):
+                    targets.append(f)
+    TRANSPARENT_CALLS = ('std::move', 'std::forward')
+
+    def scan(e, transparent, pds, bad):
+        e0 = e
+        if e0 is None:
+            return
+        k = e0.get('k')
+        if k == 'ref' and e0.get('d') in pds:
+            if not transparent:
+                bad.append((pds[e0['d']], e0))
+            return
+        if k in ('paren', 'cast', 'implicit_cast') and e0.get('e') is not None:
+            return scan(e0['e'], transparent, pds, bad)
+        if k == 'construct' and len(e0.get('args', [])) == 1 and (e0.get('copy_or_move') or (e0.get('rec') or '').startswith(('std::basic_string', 'std::__cxx11::basic_string'))):
+            return scan(e0['args'][0], transparent, pds, bad)
+        if k == 'construct' and (e0.get('rec') or '').split('::')[-1] in ('Node', 'Token', 'ScannerInfo'):
+            for a in e0.get('args', []):
+                scan(a, transparent, pds, bad)
+            return
+        if k == 'init':
+            for _, v in e0.get('fields', []):
+                scan(v, transparent, pds, bad)
+            for a in e0.get('args', []) or []:
+                scan(a, transparent, pds, bad)
+            return
+        if k == 'new':
+            for key in ('init', 'e'):
+                if isinstance(e0.get(key), dict):
+                    scan(e0[key], transparent, pds, bad)
+            for a in e0.get('args', []) or []:
+                scan(a, transparent, pds, bad)
+            return
+        if k == 'call' and (e0.get('callee') or '') in TRANSPARENT_CALLS and len(e0.get('args', [])) == 1:
+            return scan(e0['args'][0], transparent, pds, bad)
+        if k == 'call' and (e0.get('callee') or '') in ('Theo::Node::mk', 'Theo::AST::mk') and e0.get('obj') is None:
+            for a in e0.get('args', []):
+                scan(a, transparent, pds, bad)      # the node factory (checked as a carrier itself)
+            return
+        for c in expr_children(e0):
+            scan(c, False, pds, bad)
+        for a in e0.get('args', []) or []:
+            if isinstance(a, dict):
+                scan(a, False, pds, bad)
+    n = 0
+    for f in targets:
+        rep.analysed(f)
+        pds = {p['d']: p['name'] for p in f['params']}
+        bad = []
+        for ci in f.get('ctor_inits') or []:
+            if ci.get('init') is not None:
+                scan(ci['init'], True, pds, bad)
+        for st in walk_stmts(f['body']):
+            if st['k'] == 'return' and st.get('e') is not None:
+                scan(st['e'], True, pds, bad)
+            elif st['k'] == 'decl':
+                for v in st['vars']:
+                    if v.get('init') is not None:
+                        scan(v['init'], True, pds, bad)
+            elif st['k'] == 'expr':
+                e = strip_casts(st['e'])
+                if e is not None and e.get('k') == 'assign' and e.get('op', '=') == '=':
+                    lt = strip_casts(e['l'])
+                    if lt is not None and lt.get('k') == 'ref' and lt.get('d') in pds:
+                        bad.append((pds[lt['d']], e))
+                    else:
+                        scan(e['r'], True, pds, bad)
+                elif e is not None and e.get('k') == 'call' and e.get('obj') is not None and (e.get('callee') or '').endswith('::operator='):
+                    scan(e['args'][0] if e.get('args') else None, True, pds, bad)
+                else:
+                    scan(e, False, pds, bad)
+                    if f['kind'] == 'ctor' and e is not None and e.get('k') == 'call':
+                        # a constructor of a carrier that does something with its fields after storing them (std::replace(filename.begin(), ..))
+                        bad.append(('(the stored fields)', e))
+        n += 1
+        inst = '%s(%s)' % (f['q'].split('::')[-1] if f['kind'] != 'ctor' else f['q'].rsplit('::', 1)[0].split('::')[-1], ', '.join(p['name'] for p in f['params']))
+        S9.check(not bad, inst, 'every argument reaches its field unchanged',
+                 'the argument %s is not stored as given (%s): text, file or line of a token differ from what the scanner saw - positions move, names are cut or rewritten' % (
+                     bad[0][0] if bad else '', show(bad[0][1])[:60] if bad else ''), '%s:%d' % (os.path.relpath(f['file'], sfacts.repo), f['loc'][1]))
+    if n == 0:
+        S9.unknown('carrier records', 'no constructor of Token/Node and no AST::mk found')
+    for en in ('Theo::Token::Type', 'Theo::Node::Type', 'Theo::ParseError::Type'):
+        try:
+            vals = (sfacts.enum(en) if en in sfacts.enums else afacts.enum(en))['enumerators']
+        except AnalysisBroken:
+            continue
+        seen = {}
+        dup = None
+        for name_, v_ in vals:
+            if v_ in seen and v_ is not None:
+                dup = (seen[v_], name_, v_)
+            seen.setdefault(v_, name_)
+        S9.check(dup is None, 'enum %s' % en.split('Theo::')[-1], '%d enumerators, pairwise distinct values' % len(vals),
+                 'the enumerators %s and %s have the same value %s: the two kinds cannot be told apart (an error of one kind is reported and treated as the other)' % (
+                     dup[0] if dup else '', dup[1] if dup else '', dup[2] if dup else ''), 'Compiler/include')
 
 
 def enclosing_conditions(body, target_stmt, target_expr=None):
